@@ -41,13 +41,13 @@ CLAIMED = {
          "Proof: C13_reset_state, C13_reset_fresh (every state, every later Read sequence), C13_reset_fields_complete (regenerated: decompressor.Reset and inflate.reset assign every stream-state field); oracle: histories (nothing read, pending output, complete, error, truncated, cut inside a header) then valid / hostile / dictionary next inputs delivered whole or in small pieces, flate/gzip/zlib. Truncated next inputs inherit known finding F-C04-1.",
          RT, "DESIGN.md section 6 C13"),
  "C14": ("Lean 4 theorems over the Writer control model for an arbitrary destination failure pattern (reported / recorded / sticky) + lock-step correspondence under injected faults + fault at every destination call",
-         "Proof: for every failure pattern of the destination (any call index, one-shot or persistent) C14_reported, C14_failure_recorded and C14_sticky are kernel-checked by induction over the operation list; tie: W correspondence with injected destination faults (results, counters, number of destination calls) plus the direct oracle failing the destination at every call index (persistent and one-shot) of generated op sequences for flate/gzip/zlib at each level.",
+         "Proof: for every failure pattern of the destination (any call index, one-shot or persistent) C14_reported, C14_failure_recorded and C14_sticky are kernel-checked by induction over the operation list, and C14_gzip_sticky / C14_zlib_sticky (+ C14_zlib_invariant) for the container Writer models over any inner Writer; tie: W correspondence with injected destination faults (results, counters, number of destination calls) plus the direct oracle failing the destination at every call index (persistent and one-shot) of generated op sequences for flate/gzip/zlib at each level.",
          WT + " Memory safety of the unsafe 8-byte stores is observed (recovered panics / crashes of the harness process), not proved.", "DESIGN.md section 6 C14"),
  "C15": ("Lean 4 theorems over the Reader control model + bufio model: only Peek can surface a source error, it surfaces the source's own value, only after all earlier bytes were decoded, and it sticks + lock-step correspondence with failing sources + fault-at-every-byte oracle",
          "Proof: C15_error_is_the_sources, C15_decoder_errors_are_not_source_errors, C15_peek_reports_source_errors_only, C15_sticky are kernel-checked for every schedule and decoder; oracle: source failing after k bytes for k across the stream, alone or with data, three error values (one wrapping io.EOF), flate/gzip/zlib.",
          RT, "DESIGN.md section 6 C15"),
  "C16": ("Lean 4 refinement of the Writer control model to the 3-state protocol automaton of compress/flate + exhaustive short call sequences side by side with the standard library",
-         "Proof: C16_protocol_step (every call's error and next protocol state are the automaton's), C16_after_close (closed Writer: Close nil, Write/Flush fail, nothing emitted, state unchanged), C16_close_closes, C16_total; tie: W correspondence, and the oracle running ALL sequences over {W-empty,W-small,W-large,Flush,Close,Reset} up to length 4 (thorough 5) per setting plus random longer ones against compress/{flate,gzip,zlib}, plus constructor level acceptance -4..11.",
+         "Proof: C16_protocol_step (every call's error and next protocol state are the automaton's), C16_after_close (closed Writer: Close nil, Write/Flush fail, nothing emitted, state unchanged), C16_close_closes, C16_total, and C16_gzip_closed_idempotent / C16_zlib_closed_idempotent for the container Writer models; tie: W correspondence, and the oracle running ALL sequences over {W-empty,W-small,W-large,Flush,Close,Reset} up to length 4 (thorough 5) per setting plus random longer ones against compress/{flate,gzip,zlib}, plus constructor level acceptance -4..11.",
          WT + " That the standard library follows the same automaton is validated, not proved; panics are observed by the harness.", "DESIGN.md section 6 C16"),
  "C17": ("Lean 4: product-machine non-interference theorem + fact theorem over the REGENERATED list of package-level variables and their write sites (none outside init; no stores to globals in assembly) + concurrent-vs-solo oracle, also under the race detector",
          "Proof (partial by nature): C17_product_noninterference (any two state machines, any interleaving) and C17_no_shared_mutable_state (decide over facts regenerated from /repo on every run: a new mutable global, a sync.Pool, a write to a table outside init breaks it); the Go memory model and the assembly are not modelled: data-race freedom is corroborated by running the same workloads concurrently (GOMAXPROCS 1..16, skewed writers, pooled-reader recycling) and in a -race build.",
